@@ -1,4 +1,5 @@
 import RsslVerif.Model.Meta
+import RsslVerif.Model.MetaLayers
 import RsslVerif.Model.MetaReach
 import RsslVerif.Model.MetaFront
 import RsslVerif.Driver.Util
@@ -17,10 +18,12 @@ open RsslVerif.Model (Names.build)
 structure Res where
   name : String
   cb : Bool
-  /-- peeled object kind; none for a cbuffer, for a struct-typed global and for a multi-dimensional array -/
-  kind : Option ObjKind
+  /-- the layer chain of the global's type as the typer builds it from the spelling (object kind, typedef chain, `const`
+      keyword, storage class, declarator dimensions); unused for a cbuffer -/
+  ty : Ty
+  /-- the typedefs of the spelling live in `namespace TN<i>` (a joined declarator shares the typedefs of the declaration) -/
+  tdns : Bool
   group : Option Nat
-  arr : Arr
   ss : Bool
   bl : Bool
   st : Storage
@@ -74,15 +77,50 @@ def optsOf (parts : List String) (n : Nat) : List String :=
   | some o => splitList o "+"
   | none => []
 
-def parseArr (kind : Option ObjKind) (s : String) : Option (Option ObjKind × Arr) :=
-  if s == "-" then some (kind, Arr.no)
-  else if s == "u" then some (kind, Arr.unsized)
+/-- declarator dimensions, outermost first: `-`, `n`, `u` (unsized), `axb` -/
+def parseDims (s : String) : Option (List (Option Nat)) :=
+  if s == "-" then some []
+  else if s == "u" then some [none]
   else if (s.splitOn "x").length == 2 then
-    -- two dimensions: peeling one array layer leaves an array, not an object
     match (s.splitOn "x").map (·.toNat?) with
-    | [some a, some _] => some (none, Arr.sized a)
+    | [some a, some b] => some [some a, some b]
     | _ => none
-  else s.toNat?.map fun n => (kind, Arr.sized n)
+  else s.toNat?.map fun n => [some n]
+
+/-- spelling of the type (the text after `T`, see harness/src/c05/case.rs):
+    `[N] (a | c | d<n> | e<n>)* [k] [x] [p]` ↦ (typedefs in a namespace, typedef steps, `const` keyword) -/
+structure Spell where
+  ns : Bool
+  steps : List TypedefStep
+  constKw : Bool
+  deriving Inhabited
+
+def parseSteps : Nat → List Char → List TypedefStep → Option (List TypedefStep × List Char)
+  | 0, _, _ => none
+  | fuel + 1, cs, acc =>
+    match cs with
+    | 'a' :: r => parseSteps fuel r (acc ++ [{ isConst := false, dim := none }])
+    | 'c' :: r => parseSteps fuel r (acc ++ [{ isConst := true, dim := none }])
+    | c :: r =>
+      if c == 'd' || c == 'e' then
+        let ds := r.takeWhile Char.isDigit
+        match (String.ofList ds).toNat? with
+        | some n => if n == 0 then none else
+          parseSteps fuel (r.drop ds.length) (acc ++ [{ isConst := c == 'e', dim := some n }])
+        | none => none
+      else some (acc, cs)
+    | [] => some (acc, [])
+
+def parseSpell (s : String) : Option Spell :=
+  let cs := s.toList
+  let (ns, cs) := match cs with | 'N' :: r => (true, r) | _ => (false, cs)
+  match parseSteps (cs.length + 1) cs [] with
+  | none => none
+  | some (steps, rest) =>
+    let (k, rest) := match rest with | 'k' :: r => (true, r) | _ => (false, rest)
+    let rest := match rest with | 'x' :: r => r | _ => rest
+    let rest := match rest with | 'p' :: r => r | _ => rest
+    if rest.isEmpty then some { ns, steps, constKw := k } else none
 
 def parseRes (s : String) : Option Res :=
   let parts := s.splitOn ":"
@@ -90,14 +128,18 @@ def parseRes (s : String) : Option Res :=
   | [name, kind, group, arr, ss, bl, st] => do
     if parts.length > 8 then none
     let cb := kind == "cbuffer"
-    let k ← if cb || kind == "struct" then some none else (ObjKind.ofName? kind).map some
+    let base ← if cb || kind == "struct" then some Ty.other else (ObjKind.ofName? kind).map Ty.object
     let group ← optNat? group
-    let (k, arr) ← parseArr k arr
+    let dims ← parseDims arr
     let ss ← flag? ss
     let bl ← flag? bl
     let st ← if st == "e" then some Storage.extern else if st == "s" then some Storage.static else none
     let opts := optsOf parts 7
-    pure { name, cb, kind := k, group, arr, ss, bl, st, empty := opts.contains "E",
+    let sp ← match opts.find? (·.startsWith "T") with
+      | some o => parseSpell (o.drop 1).toString
+      | none => some { ns := false, steps := [], constKw := false }
+    pure { name, cb, ty := globalTy base sp.steps sp.constKw st dims, tdns := sp.ns && !opts.contains "j", group, ss, bl, st,
+           empty := opts.contains "E",
            -- `[[vk::binding(i, g)]]` always carries an index
            hasIndex := opts.any (fun o => o.startsWith "ri" || o.startsWith "vi") || (opts.contains "gv" && group.isSome),
            ns := opts.contains "ns" }
@@ -230,10 +272,12 @@ structure Prog where
   entries : List Fn
   pipes : List Pipe
 
-/-- namespace id of resource `i` (the `ns` resources get one namespace each, in declaration order) -/
+/-- namespace id of resource `i` (the `ns` resources get one namespace each, in declaration order; a spelling whose
+    typedefs live in `namespace TN<i>` opens that one right before) -/
 def nsOf (rs : List Res) (i : Nat) : Option Nat :=
   match rs[i]? with
-  | some r => if r.ns then some ((rs.take i).filter (·.ns)).length else none
+  | some r =>
+    if r.ns then some (((rs.take i).filter (·.ns)).length + ((rs.take (i + 1)).filter (·.tdns)).length) else none
   | none => none
 
 /-- what `NameMap::build` sees of the generated file on a target (Metal: after `simplify_cbuffers`) -/
@@ -242,7 +286,9 @@ def nameSrc (msl : Bool) (pg : Prog) : NameSrc :=
   let cbs := idx.filter fun i => match pg.rs[i]? with | some r => r.cb | none => false
   let globs := idx.filter fun i => match pg.rs[i]? with | some r => !r.cb | none => false
   let nm := fun i => match pg.rs[i]? with | some r => r.name | none => ""
-  { nss := (idx.filter fun i => (nsOf pg.rs i).isSome).map fun i => (none, "NS" ++ toString i),
+  { nss := idx.flatMap fun i =>
+      (match pg.rs[i]? with | some r => if r.tdns then [(none, "TN" ++ toString i)] else [] | none => []) ++
+      (if (nsOf pg.rs i).isSome then [(none, "NS" ++ toString i)] else []),
     structs := [(none, "CbS"), (none, "ResS"), (none, "MeshVertex"), (none, "TaskPayload")] ++
       (if msl then cbs.map fun i => (nsOf pg.rs i, nm i ++ "Type") else []),
     globals := (List.range pg.nstatics).map (fun k => (none, "s_value" ++ toString k)) ++
@@ -303,18 +349,18 @@ def emittedNames (msl : Bool) (pg : Prog) : Except String (List String × List S
 /-- root definitions in the order the generated file declares them:
     struct CbS; struct ResS; statics; numthreads constants; two structs; groupshared payload; resources;
     s_init globals (functions contribute nothing).  Returns the list and the position of the first resource. -/
-def declsOf (pg : Prog) (resNames : List String) : List MDecl × Nat :=
-  let plain := fun (n : String) => MDecl.global n none false none .no false .static
-  let pre : List MDecl :=
+def declsOf (pg : Prog) (resNames : List String) : List TDecl × Nat :=
+  let plain := fun (n : String) => TDecl.global n none false .other false .static
+  let pre : List TDecl :=
     [.other, .other] ++ (List.range pg.nstatics).map (fun k => plain ("s_value" ++ toString k)) ++
     (ntConsts pg.entries).map (fun k => plain ("c_nt" ++ toString k)) ++
-    [.other, .other, .global "lds_payload" none false none .no false .groupshared]
+    [.other, .other, .global "lds_payload" none false .other false .groupshared]
   let res := (List.range pg.rs.length).map fun i =>
     match pg.rs[i]? with
-    | none => MDecl.other
+    | none => TDecl.other
     | some r =>
       let n := resNames.getD i r.name
-      if r.cb then .cbuffer n r.group else .global n r.group r.ss r.kind r.arr r.bl r.st
+      if r.cb then .cbuffer n r.group else .global n r.group r.ss r.ty r.bl r.st
   (pre ++ res ++ (List.range pg.inits.length).map (fun k => plain ("s_init" ++ toString k)), pre.length)
 
 /-- one `build_pipeline` -/
@@ -322,7 +368,9 @@ def buildOne (msl : Bool) (p : Params) (pg : Prog) (pipe : Option PipeDef) : Str
   match emittedNames msl pg with
   | .error e => "panic:" ++ e
   | .ok (resNames, entNames) =>
-  let (ds, off) := declsOf pg resNames
+  let (tds, off) := declsOf pg resNames
+  -- what this exporter's `analyse_bindings` sees of every declaration (its own peel of the type)
+  let ds := tds.map (TDecl.toMeta (if msl then mslPeel else hlslPeel))
   let dflt := match pipe with | some pp => pp.dflt | none => 0
   let funcs := pg.helpers ++ pg.entries
   let nres := pg.rs.length
@@ -347,8 +395,9 @@ def buildOne (msl : Bool) (p : Params) (pg : Prog) (pipe : Option PipeDef) : Str
   | none => "unsupported-fuel"
   | some req =>
     let usedAt := fun i => usedBy req (stageRecs.map (·.entry)) i
-    let slots := assign p dflt (ds.map MDecl.toSlot)
-    let metaR := if msl then mslExport p dflt usedAt pipe.isSome ds else hlslMeta p dflt ds
+    -- the allocator peels the declared types itself (`allocPeel`)
+    let slots := assign p dflt (tds.map (TDecl.toSlot allocPeel))
+    let metaR := if msl then mslExportT p dflt usedAt pipe.isSome tds else hlslMetaT p dflt tds
     match slots, metaR with
     | .error e, _ => "panic:" ++ e
     | _, .error e =>
@@ -415,8 +464,24 @@ def frontEnd (pg : Prog) : Except FrontErr (List PipeDef) :=
   -- `addStage` numbers the functions over helpers ++ entries, like `funcs` in `buildOne`
   parseFile fns [] (itemsOf pg fnOf srcs)
 
+def showLayer : Layer → String
+  | .mod => "M"
+  | .arr (some n) => "A" ++ toString n
+  | .arr none => "A?"
+  | .obj k => "O:" ++ k.name
+  | .other => "X"
+
+/-- `C05.layers`: the layer chain the typer gives every resource global of the request (harness: the real
+    `type_check` on the resource declarations alone) -/
+def layersOf (rs : List Res) : String :=
+  "L[" ++ ";".intercalate ((rs.filter (!·.cb)).map fun r => r.name ++ "=" ++ ".".intercalate (r.ty.layers.map showLayer)) ++ "]"
+
 def handle (op : String) (args : List String) : String :=
   match op, args with
+  | "C05.layers", [_, _, _, rs, _, _, _] =>
+    match sequenceOpt ((splitList rs ";").map parseRes) with
+    | some rs => layersOf rs
+    | none => "bad-request"
   | "C05.meta", [tgt, mode, gl, rs, hs, es, ps] =>
     match targetParams tgt, parseGlobals gl, sequenceOpt ((splitList rs ";").map parseRes),
           sequenceOpt ((splitList hs ";").map parseHelper), sequenceOpt ((splitList es ";").map parseEntry),
